@@ -2,7 +2,8 @@
    (The reply-receiving half, C05_caller_guard, is in the second part of this file, over the
    outbound call model.) *)
 From Coq Require Import List String Bool ZArith.
-From OV.Model Require Import Json Names Schema SchemaProofs Validate Frame Dispatch DispatchProofs Shipped ShippedProofs.
+From OV.Model Require Import Json Names Schema SchemaProofs Validate Frame Classes Dispatch DispatchProofs Endpoint EndpointProofs Shipped ShippedProofs.
+From OV.Gen Require Import Errors.
 Import ListNotations.
 Local Open Scope string_scope.
 
@@ -72,3 +73,36 @@ Theorem C05_independent_oracle :
   forall sm pm s j, violations sm pm s j = [] <-> Valid sm pm s j.
 Proof. exact violations_sound_complete. Qed.
 Print Assumptions C05_independent_oracle.
+
+(* the reply-receiving half: call() hands back a result only for a CALLRESULT payload that is valid
+   against the response schema of the action it SENT (whatever a surplus 4th element of the frame
+   says), unless this very call skipped validation; otherwise it raises the mapped OCPP error *)
+Theorem C05_caller_guard :
+  forall c cl id payload a4 kw,
+    complete shipped errors results_of c cl (CallResult id payload a4) = OResult kw ->
+    (cl_skip cl = true /\ kw = c2s_keys payload) \/
+    (cl_skip cl = false /\
+     exists s, assoc (schema_name (c_ver c) MCallResult (cl_action cl)) (shipped (c_ver c)) = Some s /\
+               Valid (mode_of (c_ver c) MCallResult (cl_action cl)) (mode_of (c_ver c) MCallResult (cl_action cl)) s
+                     (payload_in_mode (c_ver c) MCallResult (cl_action cl) payload) /\
+               kw = c2s_keys (payload_in_mode (c_ver c) MCallResult (cl_action cl) payload)).
+Proof.
+  intros c cl id payload a4 kw H. unfold complete in H. unfold ver in H.
+  destruct (cl_skip cl) eqn:Hs.
+  - left. destruct (construct results_of c (cl_action cl) (c2s_keys payload)); [|discriminate].
+    injection H as <-. split; reflexivity.
+  - right. split; [reflexivity|].
+    destruct (validate shipped (c_ver c) MCallResult (cl_action cl) payload) as [p|codes mc| |] eqn:Ev;
+      try (destruct mc); try discriminate.
+    destruct (construct results_of c (cl_action cl) (c2s_keys p)); [|discriminate]. injection H as <-.
+    apply (validate_accept_iff shipped) in Ev. destruct Ev as [s [Hs' [HV ->]]]. exists s. repeat split; assumption.
+Qed.
+Print Assumptions C05_caller_guard.
+
+Theorem C05_caller_violation :
+  forall c cl id payload a4 codes,
+    cl_skip cl = false ->
+    validate shipped (c_ver c) MCallResult (cl_action cl) payload = VReject codes false ->
+    complete shipped errors results_of c cl (CallResult id payload a4) = OInvalid codes.
+Proof. intros c cl id payload a4 codes Hs Hv. unfold complete, ver. rewrite Hs, Hv. reflexivity. Qed.
+Print Assumptions C05_caller_violation.
